@@ -7,6 +7,11 @@ return is reachable once the stack was mutated or the directory changed; a calle
 can fail silently is not called after the stack was already mutated with an
 unvalidated target (today it is: known finding); every ``pushd`` insertion reaches the
 ``$DIRSTACK_SIZE`` truncation.  Not decided: the ``+N/-N`` index arithmetic.
+
+The directory commands are read in their helper-transparent view (a phase moved into a helper is still the command)
+and walked value-sensitively (``_Walk``): an error return is a return whose value *evaluates* to ``(out, err,
+<non-zero>)``, also when the status arrives through a local or through a helper's result that the caller unpacks or
+hands on; guards and validations count when no walk that respects the known constants avoids them.
 """
 
 from __future__ import annotations
